@@ -94,7 +94,7 @@ Clients == AuthClients \cup OtherClients \cup MixedClients
 
 MalClasses == {"empty", "short1", "short2", "nob64", "b64rand", "b64trunc", "oversize", "mixed", "dup", "badindex",
                "nontls", "dropAfterHello", "dropMidHello", "silentClose", "wrappedShort", "hugeEntry", "prefOnly",
-               "clientAlert", "resetMidHello", "resetAfterHello"}
+               "clientAlert", "resetMidHello", "resetAfterHello", "rawSslv2", "rawOversizeRecord", "rawHttp", "rawBadVersion"}
 MalPrefixes == {"fetch", "auth", "pref"}
 
 (***************************************************************************)
